@@ -426,7 +426,8 @@ int
 Hclose(int32 file_id)
 {
     filerec_t *file_rec; /* file record pointer */
-    int        ret_value = SUCCEED;
+    int        close_status = SUCCEED; /* result of closing the underlying file */
+    int        ret_value    = SUCCEED;
 
     /* Clear errors and check args and all the boring stuff. */
     HEclear();
@@ -454,9 +455,10 @@ Hclose(int32 file_id)
         if (HIsync(file_rec) == FAIL)
             HGOTO_ERROR(DFE_INTERNAL, FAIL);
 
-        /* otherwise, nothing should still be using this file, close it */
-        /* ignore any close error */
-        HI_CLOSE(file_rec->file);
+        /* otherwise, nothing should still be using this file, close it.
+           A close error means buffered data may not have reached the file:
+           release everything as usual, but report it to the caller. */
+        close_status = HI_CLOSE(file_rec->file);
 
         if (HTPend(file_rec) == FAIL)
             HGOTO_ERROR(DFE_INTERNAL, FAIL);
@@ -467,6 +469,9 @@ Hclose(int32 file_id)
 
     if (HAremove_atom(file_id) == NULL)
         HGOTO_ERROR(DFE_INTERNAL, FAIL);
+
+    if (close_status == FAIL)
+        HGOTO_ERROR(DFE_CANTCLOSE, FAIL);
 
 done:
     return ret_value;
@@ -3561,9 +3566,11 @@ Hgetntinfo(const int32 numbertype, hdf_ntinfo_t *nt_info)
 int
 hi_close_stdio(FILE **f)
 {
-    if (EOF == fclose(*f))
-        return FAIL;
+    int status = fclose(*f);
+
+    /* the stream is gone whether or not fclose reported an error (C11 7.21.5.1):
+       never keep the pointer, closing or using it again is undefined */
     *f = NULL;
-    return SUCCEED;
+    return (EOF == status) ? FAIL : SUCCEED;
 }
 #endif
